@@ -136,6 +136,52 @@ CHECKS['C10'] = dict(
     technique='bounded run-time contract against an exhaustive oracle (stand-in; k-best meta-theorem not proved), plus CxxVC side obligations',
 )
 
+BOUNDED_NOTE = ('bounded stand-in on the real code (labelled bounded, never counted as proved): seeded enumeration, independent spec decoders / oracle; '
+                'see evidence.coverage.rule for the bound')
+CHECKS['C11'] = dict(
+    category='exploration',
+    text=('Deductive parts: _chunks is proved (PyVC, one arbitrary iteration of range(0, n, splits) with exact ceiling division) to yield non-empty, contiguous, in-order slices covering the '
+          'list; the two rule-cache lambdas of parsing.h are proved (CxxVC) to store the vector filled by scaffold unchanged under (x, y), to return the stored vector and to call nothing on a hit. '
+          'History/schedule independence, alignment for every chunking and process count, placeholders and shape rejection before parsing are decided BOUNDED by a differential run on the real code '
+          '(parsing.h compiled, DePyx text of parsing.pyx, depccg/parsing.py with an in-process stand-in for Pool). Level is exploration because the headline clauses are bounded.'),
+    design_ref='DESIGN.md section 4, C11', note=BOUNDED_NOTE + '; OS-level process scheduling not modelled',
+    technique='contract-based deductive verification of _chunks (PyVC) and of the memo lambdas (CxxVC); bounded differential stand-in for history independence',
+)
+CHECKS['C17'] = dict(
+    category='exploration',
+    text=('Deductive part: _binarize is proved against the numpy contracts (mask = complement of the listed indices). The postcondition of apply_category_filters over whole documents is decided '
+          'BOUNDED as a run-time contract on the real function (every cell of every matrix compared, dependency scores and token order unchanged), and the data clause is checked exhaustively over '
+          'the shipped cat_dict / targets / seen_rules / unary_rules files.'),
+    design_ref='DESIGN.md section 4, C17', note=BOUNDED_NOTE + '; numpy contracts assumed',
+    technique='contract-based deductive verification of _binarize (PyVC); bounded run-time contract + exhaustive data check',
+)
+CHECKS['C18'] = dict(
+    category='proof',
+    text=('Frame obligations for every encoder entry point and the Tree accessors they use: each store site (attribute/subscript store, del, mutating method call) must not target an object '
+          'reachable from the arguments; decided on the ast by a flow-sensitive points-to abstraction with per-function return summaries; module-level tables are never stored to. '
+          'With the frame, rendering twice / in any order of formats equals rendering a fresh copy. BOUNDED: random format sequences on shared token objects against deep copies on the real encoders.'),
+    design_ref='DESIGN.md section 4, C18', note='the points-to abstraction (contracts/frame.py) and the library effect contracts are the trusted base; ' + BOUNDED_NOTE,
+    technique='contract-based verification: frame (modifies = {}) obligations per store site discharged by points-to analysis of the real ast; bounded differential',
+)
+CHECKS['C19'] = dict(
+    category='exploration',
+    text=('Structural noraise obligations on the ast: the label vocabulary harvested from both grammars is contained in the key sets of the Prolog tables indexed with it, and no encoder reads a '
+          'token attribute without default that the bare placeholder token lacks. Exception freedom of all encoders on grammar-licensed derivations, every label, the placeholder and mixed batches, '
+          'in every CLI format except ccg2lambda / jigg_xml_ccg2lambda (libraries absent), is decided BOUNDED on the real encoders.'),
+    design_ref='DESIGN.md section 4, C19', note=BOUNDED_NOTE,
+    technique='structural noraise obligations (vocabulary closure) + bounded rendering of grammar-generated derivations',
+)
+for _p, _t in (('C07', 'every output format encodes the same derivation'), ('C08', 'AUTO text reads back to the same tree'),
+               ('C15', 'XML formats round-trip; Jigg XML is self-contained'), ('C20', 'PTB and Japanese-bank text read back to the same tree')):
+    CHECKS[_p] = dict(
+        category='exploration',
+        text=(f'{_t}: decided BOUNDED only - run-time contract decode(encode(t)) = view(t) with independent spec decoders and the repository readers applied to files the real encoders wrote, '
+              'over seeded derivations licensed by the shipped grammars, arbitrary trees with both head directions and adversarial tokens, n-best batches. No contract-level proof was built for the '
+              'recursive printers / cursor-based readers in the time available (DESIGN.md section 5 says which clauses would be provable).'),
+        design_ref=f'DESIGN.md section 4, {_p}', note=BOUNDED_NOTE + '; lxml round trip assumed',
+        technique='bounded run-time contract on the real encoders/readers against independent spec decoders (stand-in; not proved)',
+    )
+
 NA_REASON = {}
 
 
